@@ -67,6 +67,157 @@ def _strip_cast(t):
     return t
 
 
+def _is_zip_chain(backs):
+    evs = backs[0].event_list()
+    chain = [e.extra.get("name") for e in evs if e.kind == "call" and e.extra.get("name") in ("iter", "iter_mut", "zip", "enumerate")]
+    return chain in (["iter", "iter", "zip", "enumerate"], ["iter_mut", "iter", "zip"], ["iter_mut"])
+
+
+def _iter_tree(t):
+    """structure of an iterator value: ('src', place) for a full walk over an array/slice place,
+    ('zip', A, B), ('enum', A), ('range', lo, hi); None when something else (take/skip/filter/...) is involved"""
+    if not isinstance(t, tuple) or not t:
+        return None
+    if t[0] == "ref":
+        return ("src", t[1])          # &array / &mut array used as IntoIterator
+    if t[0] == "rangeiter":
+        return ("range", t[1], t[2]) if t[3] == "fwd" else None
+    if t[0] == "agg" and isinstance(t[1], tuple) and str(t[1][1]).endswith("ops::Range"):
+        return ("range", t[2][0], t[2][1])
+    if t[0] != "call":
+        return None
+    nm = str(t[1]).split("::")[-1]
+    args = [x for x in t[2] if not (isinstance(x, tuple) and x and x[0] == "mem")]
+    if nm in ("iter", "iter_mut") and args and args[0][0] == "ref":
+        return ("src", args[0][1])
+    if nm == "into_iter" and args:
+        return _iter_tree(args[0])
+    if nm == "zip" and len(args) >= 2:
+        a_, b_ = _iter_tree(args[0]), _iter_tree(args[1])
+        return ("zip", a_, b_) if a_ and b_ else None
+    if nm == "enumerate" and args:
+        a_ = _iter_tree(args[0])
+        return ("enum", a_) if a_ else None
+    return None
+
+
+def _positions(tree, payload, out, idxs):
+    """map item components to (array place) walked at the common position; idxs collects index terms"""
+    if tree[0] == "src":
+        out[payload] = tree[1]
+    elif tree[0] == "zip":
+        _positions(tree[1], ("proj", 0, payload), out, idxs)
+        _positions(tree[2], ("proj", 1, payload), out, idxs)
+    elif tree[0] == "enum":
+        idxs.add(("proj", 0, payload))
+        _positions(tree[1], ("proj", 1, payload), out, idxs)
+    elif tree[0] == "range":
+        idxs.add(payload)
+
+
+def _wordwise_semantic(crate, I, b, tr, backs):
+    """every loop round touches ONE position k of the word arrays: dest[k] = self.data[k] OP rhs.data[k]
+    (or dest[k] OP= rhs.data[k], or dest[k] = !dest[k]); the walk covers all N words (full iterators over the
+    arrays / 0..N, no take/skip/filter).  Returns (ok, description) or None when the structure is different."""
+    if not backs:
+        return None
+    N_ = ("gparam", "N")
+    p1, p2 = ("param", 1, I.names.get(1)), ("param", 2, I.names.get(2))
+
+    def arr(pl):
+        """'self' / 'rhs' / ('local', n) for a place that is one operand's word array"""
+        if not isinstance(pl, tuple):
+            return None
+        if pl[0] == "field" and pl[2] == 0:
+            base = pl[1]
+            if base in (("deref", p1), p1, ("local", 1)):
+                return "self"
+            if base in (("deref", p2), p2, ("local", 2)):
+                return "rhs"
+            if base[0] == "local":
+                return ("local", base[1])
+        if pl[0] == "local":
+            return ("local", pl[1])
+        return None
+
+    verdict = True
+    desc = ""
+    for st in backs:
+        evs = st.event_list()
+        li = max(k for k, e in enumerate(evs) if e.kind == "loop")
+        nx = [e for e in evs[li:] if e.kind == "call" and e.extra.get("name") == "next"]
+        if len(nx) != 1:
+            return None
+        itv = (nx[0].extra.get("argvals") or [None])[0]
+        if isinstance(itv, tuple) and itv and itv[0] == "phi":
+            # the iterator is loop-carried state: its structure is the value it entered the loop with
+            ents = [en.get(itv[2]) for hd, ens in I.loop_entry.items() for en in ens if I.uid(hd) == itv[1]]
+            itv = ents[0] if ents else None
+        elem_idx = None
+        comp, idxs = {}, set()
+        if itv is not None and itv[0] == "rangeiter":
+            if not (itv[1] == mk_int(0) and itv[2] == N_ and itv[3] == "fwd"):
+                return False, "the index range is %s..%s, not 0..N" % (tstr(itv[1]), tstr(itv[2]))
+            elem_idx = [x for x in (t_ for f in st.facts for t_ in subterms(f[1])) if x[0] == "elem"]
+        else:
+            tree = _iter_tree(itv) if itv is not None else None
+            if tree is None:
+                return None
+            payload = ("proj", 0, ("down", nx[0].res, 1))
+            _positions(tree, payload, comp, idxs)
+            srcs = [arr(pl) for pl in comp.values()]
+            if any(x is None for x in srcs):
+                return None
+
+        def pos_of(pl):
+            """(array, 'k') when the place is the current position's word of an array"""
+            if not isinstance(pl, tuple):
+                return None
+            if pl[0] == "deref" and pl[1] in comp:
+                return arr(comp[pl[1]])
+            if pl[0] == "index":
+                ix = pl[2]
+                if (ix[0] == "elem" and ix[2] == mk_int(0) and ix[3] == N_) or ix in idxs:
+                    return arr(pl[1])
+            return None
+
+        def val_pos(v):
+            if isinstance(v, tuple) and v and v[0] == "load":
+                return pos_of(v[2])
+            if isinstance(v, tuple) and v and v[0] == "ref":
+                return pos_of(v[1])
+            return None
+
+        body = evs[li:]
+        wops = [e for e in body if e.kind == "call" and (e.extra.get("trait") or "").split("::")[-1] in ("BitAnd", "BitOr", "BitXor", "BitAndAssign", "BitOrAssign", "BitXorAssign")]
+        stores = [e for e in body if e.kind == "store"]
+        if tr.endswith("Assign"):
+            ok = len(wops) == 1 and (wops[0].extra.get("trait") or "").split("::")[-1] == tr and not stores
+            if ok:
+                d, r_ = val_pos(wops[0].args[0]), val_pos(wops[0].args[1])
+                ok = d == "self" and r_ == "rhs"
+            desc = "self.data[k] %s rhs.data[k] at every position k" % tr
+        elif tr in ("BitAnd", "BitOr", "BitXor"):
+            ok = len(wops) == 1 and (wops[0].extra.get("trait") or "").split("::")[-1] == tr
+            if ok:
+                l_, r_ = val_pos(wops[0].args[0]), val_pos(wops[0].args[1])
+                ok = l_ == "self" and r_ == "rhs"
+                # the result goes to position k of the result array
+                tgt = [e for e in stores if e.val == wops[0].res]
+                upd_ok = False
+                for l, v in st.env.items():
+                    for x in ([v] + list(subterms(v))) if isinstance(v, tuple) else []:
+                        if x[0] == "upd" and x[3] == wops[0].res and ((x[2][0] == "elem" and x[2][2] == mk_int(0) and x[2][3] == N_) or x[2] in idxs):
+                            upd_ok = True
+                ok = ok and (upd_ok or any(pos_of(e.place) is not None for e in tgt))
+            desc = "result[k] = self.data[k] %s rhs.data[k] at every position k" % tr
+        else:
+            ok = len(stores) == 1 and stores[0].val[0] == "un" and stores[0].val[1] == "Not" and stores[0].val[2][0] == "load" and stores[0].val[2][2] == stores[0].place and pos_of(stores[0].place) is not None
+            desc = "word[k] = !word[k] at every position k"
+        verdict = verdict and ok
+    return verdict, desc
+
+
 def _wordwise_alt(crate, I, b, tr, backs):
     """forms of the word-wise operators other than the zip chain; None when none applies"""
     p1, p2 = ("param", 1, I.names.get(1)), ("param", 2, I.names.get(2))
@@ -211,7 +362,7 @@ def check(col, prog, tier, profile, fixture=None):
             nb = b_
     if nb is None:
         raise Anchor("BitsIter::next not found")
-    I = util.analyse(nb)
+    I = util.analyser(util.private_helpers(crate, "BitsIter", exclude=[nb]))(nb)
     okdec = True
     nsh = 0
     for st in I.all_end_states():
@@ -247,7 +398,7 @@ def check(col, prog, tier, profile, fixture=None):
             form1 = v[0] == "bin" and v[1] == "BitAnd" and v[3] in (("un", "Not", mk_int(63)), mk_int(~63), mk_int((1 << 64) - 64)) and v[2] == ("bin", "Add", old, mk_int(64))
             form2 = v[0] == "bin" and v[1] == "Mul" and mk_int(64) in (v[2], v[3]) and any(x == ("bin", "Add", ("bin", "Div", old, mk_int(64)), mk_int(1)) or x == ("bin", "Add", ("bin", "Shr", old, mk_int(6)), mk_int(1)) for x in (v[2], v[3]))
             if form1 or form2:
-                zero = any(f[0] == "eq" and f[2] == 1 and isinstance(f[1], tuple) and f[1][0] == "bin" and f[1][1] == "Eq" and f[1][3] == mk_int(0) and f[1][2][0] == "bin" and f[1][2][1] == "Shr" for f in st.facts)
+                zero = any(f[0] == "eq" and isinstance(f[1], tuple) and f[1][0] == "bin" and ((f[1][1] == "Eq" and f[2] == 1) or (f[1][1] == "Ne" and f[2] == 0)) and f[1][3] == mk_int(0) and f[1][2][0] == "bin" and f[1][2][1] == "Shr" for f in st.facts)
                 okskip = okskip or zero
     for st in I.final_states:
         r = util.ret_term(st)
@@ -281,7 +432,13 @@ def check(col, prog, tier, profile, fixture=None):
         I = An(b)
         backs = [s for l in I.backedge_states.values() for s in l]
         key = "%s|wordwise" % fk(b)
-        alt = _wordwise_alt(crate, I, b, tr, backs)
+        alt = _wordwise_semantic(crate, I, b, tr, backs)
+        if alt is None or not alt[0]:
+            alt2 = _wordwise_alt(crate, I, b, tr, backs)
+            alt = alt2 if alt2 is not None else alt
+        if alt is not None and not alt[0] and backs:
+            # a form the position analysis does not understand may still be the original zip chain (judged below)
+            alt = None if _is_zip_chain(backs) else alt
         if alt is not None:
             okalt, desc = alt
             if okalt:
@@ -381,6 +538,12 @@ def check(col, prog, tier, profile, fixture=None):
         col.ok("K4" + sfx, b.loc(), "%s|sum-of-count-ones" % fk(b), "count_ones summed over every word")
     else:
         col.violation("K4" + sfx, "%s|sum-of-count-ones" % fk(b), b.loc(), "count must sum count_ones over all words")
+    fmt_bodies = {}
+    for tr_ in ("Display", "Debug"):
+        for b_ in crate.bodies:
+            imp = crate.impl_of(b_)
+            if imp is not None and (imp.get("trait") or "").endswith("fmt::" + tr_) and "Bitset" in imp["self_ty"] and not imp.get("derived"):
+                fmt_bodies[tr_] = b_
     for tr in ("Display", "Debug"):
         fb = None
         for b_ in crate.bodies:
@@ -399,6 +562,12 @@ def check(col, prog, tier, profile, fixture=None):
         cl = crate.closures_of(fb)
         tests = any(any((t["fn"].get("name") == "test") for bb, t in c.calls()) for c in cl)
         key = "%s|all-bits" % fk(fb)
+        if not (okr and tests) and fmt_bodies:
+            # one of Display/Debug forwards to the other (which is judged on its own)
+            for st in I.final_states:
+                cs = [e for e in st.event_list() if e.kind == "call" and (e.fn.get("resolved") or e.fn).get("def") in {x.key for x in fmt_bodies.values() if x.key != fb.key}]
+                if len(cs) == 1 and util.ret_term(st) == cs[0].res and cs[0].args[0] in (("param", 1, I.names.get(1)), ("ref", ("deref", ("param", 1, I.names.get(1))))):
+                    okr = tests = True
         if not (okr and tests):
             # loop form: for i in 0..N*64 { write_char(if self.test(i) { '1' } else { '0' }) }
             sts = [s_ for l in I.backedge_states.values() for s_ in l] + I.inl_back
